@@ -38,6 +38,7 @@ BytesOfBitsMSB(bits) == LET n == Len(bits) \div 8 IN [i \in 1..n |-> ByteOfBits(
 
 ByteAnd(a, b) == FoldLeft(LAMBDA acc, i : acc + (IF BitOf(a, i) = 1 /\ BitOf(b, i) = 1 THEN Pow2(i) ELSE 0), 0, <<0, 1, 2, 3, 4, 5, 6, 7>>)
 ByteOr(a, b)  == FoldLeft(LAMBDA acc, i : acc + (IF BitOf(a, i) = 1 \/ BitOf(b, i) = 1 THEN Pow2(i) ELSE 0), 0, <<0, 1, 2, 3, 4, 5, 6, 7>>)
+BitOf16(w, i) == IF i < 8 THEN BitOf(w % 256, i) ELSE BitOf(w \div 256, i - 8)
 ByteXor(a, b) == FoldLeft(LAMBDA acc, i : acc + (IF BitOf(a, i) # BitOf(b, i) THEN Pow2(i) ELSE 0), 0, <<0, 1, 2, 3, 4, 5, 6, 7>>)
 \* 0/1 flags, bit 0 first, length a multiple of 8 -> bytes
 BytesOfFlags(f) == [j \in 1..(Len(f) \div 8) |-> FoldLeft(LAMBDA acc, i : acc + f[8 * (j - 1) + i + 1] * Pow2(i), 0, <<0, 1, 2, 3, 4, 5, 6, 7>>)]
